@@ -69,6 +69,19 @@ CHECKS.update({
          "bounded-exhaustive input enumeration under process isolation with hang/abort detection (stateless exploration; crash, abort and non-termination are verdicts)"),
 })
 
+CHECKS.update({
+ "C19": ("model_checking",
+         "Full product of 178 (thorough 208) account names of every display width 1..60/70 (ASCII, inner spaces, East-Asian wide, mixed) x clear marks x 214 (438) number shapes x 8 amount kinds, with and without 5 lots x 3 costs x assertion, plus assertion-only and bare postings and every sequence of <=3 entries over 10 entry kinds x separators x LF/CRLF (2.39 M cases quick, 66.7 M thorough) through the real formatter; the output is judged by RefLayout with its own width function: 4-space indent, >=2 spaces after the account, number ends at display column 52 whenever it fits, `=` of assertion-only postings in the column it would have after an amount in that commodity, exactly one blank line between entries, metadata indented 4; every output is re-parsed.",
+         "Trusted: RefLayout and its width function (ASCII=1, the listed CJK/full-width characters=2; only those characters are generated). Assertion-only postings whose assertion is a parenthesised expression are DON'T-CARE for the column clause.",
+         "DESIGN.md §5 C19; notes/C19-C20.md",
+         "bounded-exhaustive enumeration of posting shapes (pure function, full product) vs reference layout model"),
+ "C20": ("model_checking",
+         "Explicit-state BFS to the fixpoint over (golden file absent | one of the content alphabet, UPDATE_GOLDEN in {unset, empty, 1, 0, non-UTF-8}, Golden handle none | snapshot) driving the REAL okane_golden::Golden in a private scratch directory inside a single worker (the env var is process-global), plus every raw action sequence to depth 4 (thorough 5); each transition re-creates the object by replaying the action history and checks new()/assert() results, file bytes, file mtime, directory listing and directory mtime against RefGolden (file and directory are aged first, so a rewrite with identical bytes is caught).",
+         "Trusted: RefGolden (assert succeeds iff got == content with CRLF->LF; writes iff UPDATE_GOLDEN non-empty; missing file is an error unless updating). A non-UTF-8 UPDATE_GOLDEN value and stale handles after an external file change are DON'T-CARE.",
+         "DESIGN.md §5 C20; notes/C19-C20.md",
+         "explicit-state BFS over (file x environment x handle) states with the real object re-executed per transition"),
+})
+
 PENDING_REASON = "check not yet implemented in this revision of /verif (planned, see DESIGN.md §5); not claimed until it exists"
 
 def main():
